@@ -93,6 +93,60 @@ def g_arith(rng):
     return t.encode()
 
 
+# arithmetic on variables whose repeated occurrences cancel (factor 0 summands are removed while the bound is built):
+# the 2nd / 3rd variable cancels, the filtered attribute itself among the summands, sub-query variables, both bounds
+ARITH_FIXED = ["cport:@cport@+@sport@", "cport:@sport@-@sport@", "cport:@cport@+@sport@-@sport@", "cport:@sport@-@sport@+@cport@",
+               "sbytes:@sbytes@+@cbytes@-@cbytes@:", "id::@id@-@a:id@+@a:id@ @a:id:1", "port:@cport@+@sport@-@sport@,80",
+               "cport:@sport@-@sport@+5", "cport:@sport@+@sport@-@sport@-@sport@", "cport:@sport@-@sport@+@cbytes@-@cbytes@",
+               "cport:@cport@-@cport@", "cport:@cport@-@cport@+@sport@", "cport:@cport@+@cport@-@cport@", "cport:@cport@+@sport@-@sport@+@cbytes@-@cbytes@",
+               "cport:@sport@+@cbytes@-@sport@-@cbytes@+@cport@", "cport:@sport@+@cbytes@-@cbytes@-@sport@", "cport:@id@+@sport@-@sport@:@cbytes@-@cbytes@+@cport@",
+               "id:@a:id@+@a:id@-@a:id@-@a:id@ @a:id:1", "id:@a:id@+@a:id@-@a:id@-@a:id@+@id@ @a:id:1", "id:@id@+@a:id@-@a:id@+@b:id@-@b:id@ @a:id:1 @b:id:2",
+               "id:@a:id@-@a:id@+@b:id@ @a:id:1 @b:id:2", "@a:cport:@cport@-@cport@+@a:cport@", "@a:cport:@a:cport@+@sport@-@sport@", "@a:id:@id@-@id@+@a:id@",
+               "bytes:@cbytes@+@sbytes@-@sbytes@", "bytes:@sbytes@-@sbytes@+@cbytes@,5", "port:@sport@-@sport@", "port:@sport@-@sport@+@cport@:",
+               "sport:@cport@+@cport@-@cport@-@cport@+@sport@+@sport@", "cbytes:@sbytes@-@sbytes@+@cbytes@+@cbytes@+3", "-cport:@cport@+@sport@-@sport@", "-(cport:@sport@-@sport@ or id:@id@-@id@)",
+               "ftime:@ftime@+@ltime@-@ltime@", "ftime:@ltime@-@ltime@", "ftime:@ltime@-@ltime@+@ftime@:", "ltime::@ltime@+@ftime@-@ftime@", "time:@ftime@-@ftime@+@ltime@-@ltime@:",
+               "ftime:@a:ftime@-@a:ftime@+@ftime@ @a:id:1", "ftime:@ftime@-@ftime@+5m", "ltime:@ftime@+@ftime@-@ftime@-@ftime@+@ltime@"]
+
+
+def g_cancel(rng):
+    """number / time bounds in which the occurrences of one or two variables cancel, in random order, next to survivors"""
+    timek = rng.random() < 0.25
+    key = rng.choice(["ftime", "ltime", "time"]) if timek else rng.choice(c03.NUMKEYS)
+    vars_ = ["ftime", "ltime"] if timek else c03.NUMVARS
+    own = key if key in vars_ else rng.choice(vars_)
+    def bound():
+        parts = []
+        for v in rng.sample(vars_, rng.randrange(1, min(3, len(vars_)) + 1)):
+            sub = rng.choice(["", "", "", "a:", "b:"])
+            k = rng.choice([1, 1, 2, 3])
+            parts += ["+@" + sub + v + "@"] * k + ["-@" + sub + v + "@"] * k
+        r = rng.random()
+        if r < 0.6:
+            parts += ["+@" + own + "@"] * rng.choice([1, 1, 2])
+        elif r < 0.75:
+            parts += [rng.choice(["+", "-"]) + "@" + rng.choice(["", "a:"]) + rng.choice(vars_) + "@"]
+        if rng.random() < 0.4:
+            parts.append(rng.choice(["+", "-"]) + (rng.choice(["5m", "1h", "0s"]) if timek else str(rng.choice([0, 1, 5, 80]))))
+        rng.shuffle(parts)
+        s = "".join(parts)
+        return s[1:] if s.startswith("+") else s
+    r = rng.random()
+    v = bound() if r < 0.45 else (bound() + ":" + bound() if r < 0.7 else (bound() + ":" if r < 0.85 else ":" + bound()))
+    if rng.random() < 0.2:
+        v += "," + rng.choice(["5m:" if timek else "80", bound()])
+    t = key + ":" + v
+    r = rng.random()
+    if r < 0.2:
+        t = "@" + rng.choice("ab") + ":" + t
+    if rng.random() < 0.2:
+        t = "-" + t
+    if "@a:" in t:
+        t += " @a:id:1"
+    if "@b:" in t:
+        t += " @b:id:2"
+    return t.encode()
+
+
 def g_longlist(rng, tier):
     n = rng.choice([10, 50, 200, 500, 1000, 2000] if tier == "thorough" else [10, 50, 200, 500, 2000])
     kind = rng.choice(["id", "id", "idrange", "cport", "tag", "host", "proto"])
@@ -352,8 +406,8 @@ def g_wellformed(rng):
     return c03.render(tr, rng).encode()
 
 
-REGIMES = [("wellformed", 0.21), ("arith", 0.13), ("longlist", 0.03), ("wide", 0.03), ("emptylist", 0.05), ("product", 0.012), ("deep", 0.06), ("negdisj", 0.08),
-           ("tokens", 0.14), ("mutate", 0.17), ("badvalues", 0.088)]
+REGIMES = [("wellformed", 0.21), ("arith", 0.13), ("longlist", 0.03), ("wide", 0.03), ("emptylist", 0.05), ("product", 0.012), ("cancel", 0.03), ("deep", 0.06), ("negdisj", 0.08),
+           ("tokens", 0.14), ("mutate", 0.16), ("badvalues", 0.068)]
 
 
 def gen_inputs(rng, n, tier):
@@ -370,6 +424,9 @@ def gen_inputs(rng, n, tier):
     for v in PRODUCT_FIXED:
         inputs.append(v.encode())
         regs.append("product")
+    for v in ARITH_FIXED:
+        inputs.append(v.encode())
+        regs.append("cancel")
     while len(inputs) < n:
         x, acc = rng.random(), 0.0
         reg = REGIMES[-1][0]
@@ -390,6 +447,8 @@ def gen_inputs(rng, n, tier):
             b = g_emptylist(rng)
         elif reg == "product":
             b = g_product(rng)
+        elif reg == "cancel":
+            b = g_cancel(rng)
         elif reg == "deep":
             b = g_deep(rng)
         elif reg == "negdisj":
@@ -397,7 +456,7 @@ def gen_inputs(rng, n, tier):
         elif reg == "tokens":
             b = g_tokens(rng)
         elif reg == "mutate":
-            b = mutate(rng, rng.choice([g_wellformed, g_wellformed, g_wellformed, g_arith, g_arith, g_negdisj, g_negdisj, g_wide, g_emptylist])(rng))
+            b = mutate(rng, rng.choice([g_wellformed, g_wellformed, g_wellformed, g_arith, g_arith, g_cancel, g_negdisj, g_negdisj, g_wide, g_emptylist])(rng))
         else:
             b = mutate(rng, rng.choice(BADVALUES + EMPTY_FIXED).encode("utf-8", "replace"))
         inputs.append(b)
@@ -734,7 +793,7 @@ def main(tier, seed, replay=None):
         ],
         "evaluations": len(inputs),
         "distinct_nontrivial": len(distinct),
-        "rule": "seeded inputs: well-formed queries (all filter kinds, depth<=4), arithmetic with repeated variables (factors != +-1), value lists up to 2000 entries, number lists mixing single values with narrow and very wide ranges (numerals near 2^16, 2^32, 2^63; %d fixed ones), directive and filter terms whose value lists have empty / blank / duplicated / negated / quoted-empty elements (%d fixed ones), products of two or three value lists on different keys with 150-256 conjuncts (%d fixed ones), nesting depth 5-8, negated disjunctions, random token sequences of the lexer vocabulary, byte-level mutations (insert/delete/replace/duplicate/bit flip, non-UTF-8 included), %d hand-written malformed values and their mutations; each parsed in a subprocess under a %.1fs watchdog, accepted ones parsed twice and compared on 12 valuations; non-trivial = accepted input with >= 2 conjuncts, distinct by bytes" % (len(WIDE_FIXED), len(EMPTY_FIXED), len(PRODUCT_FIXED), len(BADVALUES), WATCHDOG_S),
+        "rule": "seeded inputs: well-formed queries (all filter kinds, depth<=4), arithmetic with repeated variables (factors != +-1), bounds in which the occurrences of variables cancel next to the filtered attribute (%d fixed ones), value lists up to 2000 entries, number lists mixing single values with narrow and very wide ranges (numerals near 2^16, 2^32, 2^63; %d fixed ones), directive and filter terms whose value lists have empty / blank / duplicated / negated / quoted-empty elements (%d fixed ones), products of two or three value lists on different keys with 150-256 conjuncts (%d fixed ones), nesting depth 5-8, negated disjunctions, random token sequences of the lexer vocabulary, byte-level mutations (insert/delete/replace/duplicate/bit flip, non-UTF-8 included), %d hand-written malformed values and their mutations; each parsed in a subprocess under a %.1fs watchdog, accepted ones parsed twice and compared on 12 valuations; non-trivial = accepted input with >= 2 conjuncts, distinct by bytes" % (len(ARITH_FIXED), len(WIDE_FIXED), len(EMPTY_FIXED), len(PRODUCT_FIXED), len(BADVALUES), WATCHDOG_S),
         "inputs": len(inputs), "verdicts": counts, "per_regime": per_regime, "worker_restarts": rinfo,
         "parsed_twice_and_compared": twice,
         "judged_bound_conjuncts": BOUND,
